@@ -610,6 +610,36 @@ static void run_endian(void)
                             }
                             mon_distinct("nontrivial", mon_hash_u64((uint64_t)(f * 8 + v), mon_hash_str(x.ck, s->len + (uint64_t)lm)));
                         }
+                        /* writer-version sweep: stamps on both sides of the 1.2.0 gate (which decides whether the metadata
+                         * CRC applies), whose byte-reversed value lies on the other side, each with a good and a stale seal */
+                        if (f == 0 || f == n - 1) {
+                            static const uint32_t vers[] = { 0x000001, 0x000905, 0x00ffff, 0x010000, 0x010001, 0x010009, 0x0100ff, 0x010100, 0x010101, 0x010105, 0x0101ff, 0x0101ff + 1,
+                                                             0x010201, 0x010300, 0x010604, 0x01ffff, 0x020000, 0x030000, 0x0a0000, 0x100000, 0xff0000, 0x01000000, 0x02010000, 0xffffffff, 0, 0 };
+                            for (size_t vi = 0; vi < sizeof vers / sizeof vers[0]; vi++) for (int stale = 0; stale < 2; stale++) {
+                                uint32_t V = vers[vi] ? vers[vi] : (uint32_t)rng_u64(&r) & (vi & 1 ? 0x01ffffffu : 0x0003ffffu);
+                                if (V == 0) V = 0x010203;
+                                memcpy(nat, s->frag[f], s->flen);
+                                ref_put32(nat + REF_OFF_LIBVER, V);
+                                ref_hdr_reseal(nat, (int)(vi & 1) && lm >= 3);
+                                if (stale) nat[REF_OFF_MCRC + (vi & 3)] ^= (uint8_t)(0x11 << (vi & 3));
+                                int variant_legacy = ref_get32(nat + REF_OFF_MCRC) == crc_legacy(nat, 59) && ref_get32(nat + REF_OFF_MCRC) != crc_std(nat, 59);
+                                memcpy(tw, nat, s->flen);
+                                ref_hdr_twin(nat, tw, variant_legacy);
+                                if (stale) { /* the twin carries the byte-swapped stale value: rebuild it from the native stored word */ ref_put32(tw + REF_OFF_MCRC, __builtin_bswap32(ref_get32(nat + REF_OFF_MCRC))); }
+                                fragment_metadata_t ma, mb; memset(&ma, 0, sizeof ma); memset(&mb, 0, sizeof mb);
+                                int ra = liberasurecode_get_fragment_metadata((char *)nat, &ma);
+                                int rb = liberasurecode_get_fragment_metadata((char *)tw, &mb);
+                                int ha = is_invalid_fragment_header((fragment_header_t *)nat), hb = is_invalid_fragment_header((fragment_header_t *)tw);
+                                mon_count("evaluations", 1); mon_count("twin_pairs", 1); mon_count("twin_pairs_version_sweep", 1);
+                                char vn[96]; snprintf(vn, sizeof vn, "writer version 0x%06x, %s seal", V, stale ? "stale" : "good");
+                                int want = ref_hdr_accept(nat);
+                                if (want != ref_hdr_accept(tw)) mon_logf("HARNESS twin builder changed the reference verdict for version 0x%x", V);
+                                if ((ha == 0) != (hb == 0)) mon_viol("C11", "header-verdict-differs", "%s: native %d twin %d (reference: %s)", vn, ha, hb, want ? "accept" : "reject");
+                                else if ((ha == 0) != (want != 0)) mon_viol("C11", "header-verdict-differs-from-reference", "%s: native and twin both %d, reference %s", vn, ha, want ? "accepts" : "rejects");
+                                cmp_md(vn, ra, &ma, rb, &mb);
+                                mon_distinct("nontrivial", mon_hash_u64((uint64_t)V * 2 + (uint64_t)stale, mon_hash_str(x.ck, s->len + (uint64_t)f)));
+                            }
+                        }
                         if (f == 0 && si == 0 && ci % 23 == 0) mon_sample("{\"config\":\"%s\",\"fragment\":%d,\"variants\":[\"pristine\",\"payload bit\",\"idx re-sealed\",\"backend id/version re-sealed\",\"stale seal\",\"checksum words re-sealed\"]}", x.ck, f);
                         free(nat); free(tw);
                         mon_end();
